@@ -347,7 +347,11 @@ class TFLiteSemantic:
         extra = []
         tensors = [tens for tens in op.get_ifm_ifm2_weights_ofm() if tens]
         for tens in tensors:
-            if tens.quantization is None:
+            quant = tens.quantization
+            # zero-length scale or zero point vectors carry no quantization parameters either
+            if quant is None or any(
+                value is not None and np.size(value) == 0 for value in (quant.scale_f32, quant.zero_point)
+            ):
                 valid = False
                 extra.append(tens.name)
         extra = ", ".join(extra)
